@@ -20,7 +20,8 @@
   `decodeAll` of the stored frames; with C01's lossless side condition the two cancel (`write_then_read`).
 
   `RwInv` (SfProofs/RdwrInv.lean) is the invariant: HInv's sign conditions, `0 ≤ frames`, data offset = the header
-  length the container writes, no PEAK table, `dataend = 0` (RAW, AU), the store is header region ++ exactly `frames`
+  length the container writes, a PEAK table (if any) of one entry per channel in front of the data (`PeakOk`),
+  `dataend = 0` (RAW, AU), the store is header region ++ exactly `frames`
   whole frames ++ at most the zero pad byte behind an odd-length WAV data chunk (`TailOk`), and the descriptor position
   agrees with the pointer the last operation used.
   Containers: RAW, AU, WAV as modelled in SfModel/Handle.lean; every sample-granular encoding they offer.
@@ -72,7 +73,7 @@ theorem RwInv_reachable (h : H) (s : Store) (ops : List ROp) (inv : RwInv h s) (
 /-- it implies C05's `HInv`, and says in plain terms: -/
 theorem RwInv_gives (h : H) (s : Store) (inv : RwInv h s) :
     HInv h s ∧ h.mode = .rw ∧ 0 ≤ h.rpos ∧ 0 ≤ h.wpos ∧ 0 ≤ h.frames ∧ h.dataoffset = (hdrLenOf h : Nat) ∧
-    h.peak = none ∧ (h.container ≠ .wav → h.dataend = 0) ∧
+    PeakOk h ∧ (h.container ≠ .wav → h.dataend = 0) ∧
     (∃ t : Nat, (s.bytes.length : Int) = h.dataoffset + h.frames * (h.bw : Int) + t ∧
       (t = 0 ∨ (t = 1 ∧ h.container = .wav)) ∧ s.bytes.drop (s.bytes.length - t) = zeros t) ∧
     ((absOf h s).frames.length : Int) = h.frames ∧ ((absOf h s).rpos : Int) = h.rpos ∧
@@ -293,12 +294,12 @@ theorem reopen_rdwr_continues (h : H) (s : Store) (inv : RwInv h s) (fmt : Nat) 
 
 /-- the other "pre-populated file": one written by a write-only session (open SFM_WRITE on a new file, any valid write
     calls and header updates, close — the sessions of C04 / C07).  Opened SFM_RDWR it satisfies the invariant and stands
-    for exactly the frames written, read position 0, write position at the end.  Excluded (`hex`): WAV float/double
-    (such a file carries a PEAK chunk).  A WAV whose odd-length data is followed by the pad byte is covered. -/
+    for exactly the frames written, read position 0, write position at the end.  FULL strength for RAW, AU and WAV:
+    WAV float/double files (they carry a PEAK chunk: the invariant admits a PEAK table in front of the data) and WAVs
+    whose odd-length data is followed by the pad byte are covered; `hex` is only the 4 GiB RIFF limit. -/
 theorem prepopulated_opens_rdwr (ix fmt : Nat) (ch sr : Int) (h0 : H) (s0 : Store) (ops : List SOp)
     (ho : openHandle ix {} .w fmt ch sr = .ok h0 s0) (hsr : sr ≤ 0x7FFFFFFF) (hv : ∀ op ∈ ops, op.valid ch.toNat)
-    (hex : ∀ c, openCfg fmt ch sr = some c → c.hasPeak = false ∧
-      (c.container = .wav → (sessData c ops).length < 0xFFFFFFFF))
+    (hex : ∀ c, openCfg fmt ch sr = some c → c.container = .wav → (sessData c ops).length < 0xFFFFFFFF)
     (ix' pos : Nat) :
     ∃ c h' s', openCfg fmt ch sr = some c ∧
       openHandle ix' ⟨(closeHandle (runS (h0, s0) ops).1 (runS (h0, s0) ops).2).bytes, pos⟩ .rw fmt ch sr = .ok h' s' ∧
@@ -417,9 +418,10 @@ theorem partial_frame_hole_not_zero :
     (runR pH pS [.seek .set .wr 3, .write .s16 true [7]]).2.bytes = [0x55, 0x66, 0x77, 0, 0, 0, 7, 0] := by decide
 
 /-- what holds: `RwInv_initial_tight` / `RwInv_initial_padded` (and the instances `RwInv_initial_new`,
-    `RwInv_initial_raw`).  NOT covered, and not claimed: a WAV
-    float file carrying a PEAK chunk (`peak ≠ none`; files written in SFM_WRITE mode have one, files created in
-    SFM_RDWR mode do not).  For files an RDWR session left behind `reopen_rdwr_continues` proves tightness. -/
+    `RwInv_initial_raw`).  `OpenPadded` admits the WAV pad byte and a PEAK table in front of the data.  NOT covered:
+    files with other bytes behind the data (a partial frame, a PEAK chunk at the END of a foreign WAV, a LIST chunk …).
+    For files the library wrote — by an RDWR session (`reopen_rdwr_continues`) or a write-only session
+    (`prepopulated_opens_rdwr`) — the shape is proved, not assumed. -/
 theorem RwInv_initial_partial (ix : Nat) (s0 : Store) (fmt : Nat) (ch sr : Int) (h : H) (s : Store)
     (ho : openHandle ix s0 .rw fmt ch sr = .ok h s) (ht : OpenTight h s) : RwInv h s :=
   RwInv_open ix s0 fmt ch sr h s ho ht
@@ -491,13 +493,25 @@ example : ∃ h s, openHandle 0 {} .rw 0x010002 1 8000 = .ok h s ∧ CfgOf 0x010
 
 /-- `prepopulated_opens_rdwr`: C04's AU session (stereo 16-bit, three frames) meets the hypotheses -/
 example : (∃ h0 s0, openHandle 0 {} .w 0x030002 2 44100 = .ok h0 s0) ∧ (∀ op ∈ C04.exOps, op.valid (2 : Int).toNat) ∧
-    (∀ c, openCfg 0x030002 2 44100 = some c → c.hasPeak = false ∧ (c.container = .wav → False)) := by
+    (∀ c, openCfg 0x030002 2 44100 = some c → c.container = .wav → False) := by
   refine ⟨OpenRes.exists_of_isOk (by decide), by decide, ?_⟩
   intro c hc
   obtain ⟨f1, _⟩ := openCfg_facts hc
   have h0 : containerOf 0x030002 = some Container.au := by decide
   have hcc : c.container = .au := (Option.some.inj (f1.symm.trans h0))
-  exact ⟨by simp [Cfg.hasPeak, hcc], fun hw => by rw [hcc] at hw; cases hw⟩
+  exact fun hw => by rw [hcc] at hw; cases hw
+
+/-- `prepopulated_opens_rdwr` on a PEAK-carrying file: two float frames written into a new mono float WAV in SFM_WRITE mode;
+    the session is valid, stays below the RIFF limit, and the file re-opened SFM_RDWR does carry a PEAK table (one
+    entry, in front of the data) — the case the invariant admits since round 3 (`PeakOk`) -/
+def pkOps : List SOp := [.write ⟨.f32, true, 2, [0x3F000000, 0xBF800000]⟩]
+def pkReopen : Option (Int × Option Nat × Bool) :=
+  match sessionBytes 0 0x010006 1 8000 pkOps with
+  | some bs => (match openHandle 0 ⟨bs, 0⟩ .rw 0 0 0 with
+      | .ok h _ => some (h.frames, h.peak.map List.length, h.peakAtStart)
+      | _ => none)
+  | none => none
+example : (∀ op ∈ pkOps, op.valid (1 : Int).toNat) ∧ pkReopen = some (2, some 1, true) := by decide +kernel
 
 /-! ### the pad byte -/
 
